@@ -20,7 +20,7 @@ func init() {
 		Level: "other",
 		Explanation: "Decided (structural necessary conditions of admission by content): (R20.1) the format tables are consistent and exhaustive: Detect(Extension(f)) = f for every format, String/Extension/ensureReader cover every format constant; (R20.2) every reader is opened only after validateFormat succeeded, and validateFormat returns success only when the sniffed format is unknown or equals the extension's format; (R20.3) in the EPUB reader the DRM check dominates every content-reading step, checkForDRM refuses rights.xml unconditionally, refuses on unparsable or content-covering encryption metadata, and can only report 'no DRM' after the whole archive was scanned; (R20.4) content sniffing scans the complete member list in the order mimetype, container.xml, OOXML prefixes, and ZIP detection reads every member, not a prefix of the list. " +
 			"Not decided: behaviour on member permutations beyond completeness of the scans, URI casing, what counts as a content document at run time.",
-		Rules: []func(*eng.Ctx){callersAgreeRule("R20.CN", "format", "epubdoc"), ruleReadEOFIsNotFailure, ruleErrorChainKept, ruleFormatTables, ruleValidateFirst, ruleDRMGate, ruleSniffScan, roleRule("R20.R", "format", "epubdoc"), ruleMagicAtOffsetZero, ruleDRMDefaultDeny, ruleLimitTruncationAdmission, ruleContentByExtension},
+		Rules: []func(*eng.Ctx){ruleSniffersAgree, callersAgreeRule("R20.CN", "format", "epubdoc"), ruleReadEOFIsNotFailure, ruleErrorChainKept, ruleFormatTables, ruleValidateFirst, ruleDRMGate, ruleSniffScan, roleRule("R20.R", "format", "epubdoc"), ruleMagicAtOffsetZero, ruleDRMDefaultDeny, ruleLimitTruncationAdmission, ruleContentByExtension},
 	})
 }
 
